@@ -2,8 +2,10 @@
    nat stay the extracted datatypes, no Extract Constant. *)
 From Coq Require Import ZArith List.
 From Coq Require Import ExtrOcamlBasic.
-From VV Require Import Csv.CsvDefs Csv.HistoryDefs.
+From VV Require Import Csv.CsvDefs Csv.HistoryDefs Csv.StateDefs.
 Extraction "csv_model.ml" read_csv read_xrff setup_terminals run_variable class_name
   parse_line records sniffer guess_delimiter sniff_has_header render_line render_table
   fixed_v pinned_v no_filter trim blank bytes_eqb is_valid
-  read_csv_on read_xrff_on run_history empty_df.
+  read_csv_on read_xrff_on run_history empty_df
+  step_st run_history_st read_csv_st read_xrff_st prob_construct prob_read_csv prob_read_xrff prob_setup_symbols
+  prob_variables prob_classes.
